@@ -29,6 +29,7 @@ pub fn prop() -> HistProp {
         nontrivial,
         quick_cases: 8000,
         thorough_cases: 150000,
+        pressure_cases: (2000, 40000),
         assumptions: vec!["a write-back of timestamps alone is not a structural change"],
     }
 }
@@ -122,6 +123,11 @@ pub fn run(tier: Tier, seed: u64) -> i32 {
     rep.add(b);
     if !rep.failed() {
         rep.add(hist::random_block(&hp, "random_histories", seed, tier.pick(hp.quick_cases, hp.thorough_cases)));
+    }
+    if !rep.failed() {
+        if let Some(b) = hist::pressure_block(&hp, seed, tier) {
+            rep.add(b);
+        }
     }
     rep.finish()
 }
